@@ -214,6 +214,9 @@ def match_finding(entries, st, detail, text):
                 continue
         if m.get("input_regex") and not re.search(m["input_regex"], norm_text(text)):
             continue
+        if m.get("min_open_constructs") and \
+                len(re.findall(r"\(|\bif\b|\bloop\b|\bblock\b|\bgenerate\b|\bnot\b|-", norm_text(text))) < m["min_open_constructs"]:
+            continue
         return e
     return None
 
@@ -497,7 +500,7 @@ def oracle_stage(res, hbin, mbin, cases_path, tag, stats, kf_entries, kf_hits, l
                           {"kind": "harness", "case_index": i, "case": line[:2000]}, no_failing_input=True)
             continue
         o = json.loads(js)
-        parsed[i] = o
+        parsed[i] = {k: o.get(k) for k in ("st", "nt", "nd", "trace", "units", "last_diag", "tail_tok")} if o.get("st") == "ok" else o
         st = o.get("st")
         stats["classes"][cls] = stats["classes"].get(cls, 0) + 1
         stats["outcomes"][st] = stats["outcomes"].get(st, 0) + 1
@@ -692,13 +695,23 @@ def main(tier, replay=None):
         if os.path.exists(copath):
             ops_stage(res, hbin, mbin, ("opsfile", copath), "corpus_ops", stats, ops_samples)
         gpath = os.path.join(d, "gen.cases")
-        rc, out = run([hbin, "gen", str(seed()), tier, gpath], timeout=3000)
+        # the nesting depths that overflow the parser's stack are generated only while that finding is listed as open
+        deep = any(e["match"].get("min_open_constructs") for e in kf_entries)
+        rc, out = run([hbin, "gen", str(seed()), tier + ("+deep" if deep else ""), gpath], timeout=3000)
         if rc != 0:
             res.violation("harness c02 gen crashed", {"kind": "harness", "log": out[-2000:]}, no_failing_input=True)
             return res.finish()
         oracle_stage(res, hbin, mbin, gpath, "gen", stats, kf_entries, kf_hits, loop_samples)
         ops_stage(res, hbin, mbin, ("ops", seed(), 300000 if tier == "thorough" else 30000), "ops", stats, ops_samples)
     coq_cross_check(res, loop_samples[:160], ops_samples[:160])
+    if not res.violations and not replay:
+        # the generated streams are reproducible from the seed: drop the bulky intermediate files of a clean run
+        import shutil
+        for f in os.listdir(d):
+            if f.startswith(("gen.cases", "loop_gen", "ops.", "ops_model")):
+                os.remove(os.path.join(d, f))
+            elif f.startswith("work_"):
+                shutil.rmtree(os.path.join(d, f), ignore_errors=True)
 
     for fid, h in sorted(kf_hits.items()):
         e = h["entry"]
@@ -724,7 +737,11 @@ def main(tier, replay=None):
         "closing context), with every single token deleted, and 1/3 duplicated / replaced; a small design truncated at every "
         "token; windows of library tokens placed in 17 parse contexts with 1-3 token mutations "
         "(delete/duplicate/insert/replace/truncate/swap/drop run); character-level library slices starting at unit keywords "
-        "with fuzz mutations; keyword/delimiter soup; arbitrary bytes decoded as Latin-1; non-Latin-1 streams. "
+        "with fuzz mutations; keyword/delimiter soup; arbitrary bytes decoded as Latin-1; non-Latin-1 streams; the resumed loop (0-3 pending context "
+        "items x 18 failing unit heads that stop at the next keyword x more items x a second failing head x 9 good units with "
+        "the closing `;` kept, typed as `:` or missing x 5 trailers; sampled 1/6 in quick); every top-level catalogue entry "
+        "ending in `:`; nesting depths 50/200/600 of 14 recursive constructs; exhaustively every sequence of <= 3 (thorough: 4) "
+        "tokens over a 14-word alphabet. "
         "non-trivial = the input has >= 3 tokens and yields a unit or a diagnostic (or violates); distinct by hash of the "
         "input.  Cursor programs: 1-17 operations on streams of 0-30 tokens, non-trivial = >= 3 operations")
     res.coverage["explanation"] = (
